@@ -53,7 +53,11 @@ def h15(S, backend="mem", backlog=3, steps=3, window=None, foreign=True, retried
             past = own and n == 0 and retried_first and S.flag("first_carries_past_due_time")
             await enqueue(own, past)
             trace.append(("pre", ("own" if own else "foreign") + ("+past-due" if past else "")))
+        # on RabbitMQ deliveries travel through callbacks of their own: the client may or may not pause between two calls
+        settle = backend == "rabbit" and S.flag("client_pauses_between_calls")
         for step in range(steps):
+            if settle:
+                await asyncio.sleep(Fraction(1, 100))
             held = [i for i, v in info.items() if v["place"] == "held"]
             menu = [("enqueue", None), ("consume", None)] + [("reject", h) for h in held] + [("ack", h) for h in held[:1]]
             if second_consumer:
@@ -111,6 +115,8 @@ def h15(S, backend="mem", backlog=3, steps=3, window=None, foreign=True, retried
                 if hasattr(A, "settled"):
                     A.settled(arg)
         # drain: everything own that is still waiting comes out in order
+        if settle:
+            await asyncio.sleep(Fraction(1, 100))
         for _ in range(len(info)):
             waiting = [i for i, v in info.items() if v["place"] == "waiting" and v["own"]]
             if not waiting:
